@@ -4,7 +4,7 @@
 //!        (layer 1: decision diagrams under all truth assignments; layer 2: SemTypes over values;
 //!         layer 3: DNF round trips)
 //!   C07  materialisation of semantic types (semtype_to_runtypes / remove_nots...) keeps the meaning
-use beff_core::ast::runtype::{Runtype, RuntypeKind};
+use beff_core::ast::runtype::{Runtype, RuntypeConst, RuntypeKind};
 use beff_core::subtyping::bdd::{Atom, Bdd, BddOps};
 use beff_core::subtyping::dnf::{bdd_to_dnf, dnf_to_bdd};
 use beff_core::subtyping::semtype::{SemType, SemTypeContext, SemTypeOps};
@@ -1392,6 +1392,53 @@ struct Materialised {
     tail: Vec<NamedSchema>,
 }
 
+/// T[K] for a list type T written inline and K a numeric literal or a union of numeric literals
+fn expected_list_index(a: &Runtype, b: &Runtype) -> Option<Runtype> {
+    let (prefix, rest): (Vec<Runtype>, Option<Runtype>) = match &a.kind {
+        RuntypeKind::Tuple { prefix_items, items } => (prefix_items.clone(), items.as_ref().map(|r| (**r).clone())),
+        RuntypeKind::Array(el) => (vec![], Some((**el).clone())),
+        _ => return None,
+    };
+    let mut keys: Vec<i64> = vec![];
+    let mut lit = |t: &Runtype| -> bool {
+        if let RuntypeKind::Const(RuntypeConst::Number(n)) = &t.kind {
+            let f = n.to_f64();
+            if f >= 0.0 && f.fract() == 0.0 && f < 64.0 {
+                keys.push(f as i64);
+                return true;
+            }
+        }
+        false
+    };
+    match &b.kind {
+        RuntypeKind::AnyOf(ms) => {
+            for m in ms.iter() {
+                if !lit(m) {
+                    return None;
+                }
+            }
+        }
+        _ => {
+            if !lit(b) {
+                return None;
+            }
+        }
+    }
+    if keys.is_empty() {
+        return None;
+    }
+    let mut members = vec![];
+    for k in keys {
+        let k = k as usize;
+        if k < prefix.len() {
+            members.push(prefix[k].clone());
+        } else {
+            members.push(rest.clone()?);
+        }
+    }
+    Some(if members.len() == 1 { members.pop().unwrap() } else { tgen::raw_any_of(members) })
+}
+
 fn c07_case(rep: &mut Report, w: &Watch, a: &Runtype, b: &Runtype, defs: &[NamedSchema], op: &str, sample: bool) {
     let c = Case { s: a.clone(), t: b.clone(), defs: defs.to_vec(), t_first: false };
     let replay = json!({"kind": "materialise", "op": op, "a": tgen::to_json(a), "b": tgen::to_json(b), "defs": tgen::defs_to_json(defs)});
@@ -1571,6 +1618,33 @@ fn c07_case(rep: &mut Report, w: &Watch, a: &Runtype, b: &Runtype, defs: &[Named
             Eng::Panic(m) => {
                 rep.violation(&format!("panic|round-trip|{}", m), "panic", show_mat(&mat), replay.clone());
                 return;
+            }
+        }
+    }
+    // indexed access into a list by literal positions, against an independent reading of T[K]: position i
+    // of [P0, .., Pn-1, ...R[]] is Pi inside the prefix and R from position n on (seeded C07-i: the first
+    // rest position was read as "past the end"); closed tuples indexed past their end are left out
+    if op == "indexed" {
+        if let Some(expected) = expected_list_index(a, b) {
+            rep.count("list_index_reference_checked", 1);
+            for v in &vals {
+                if *v == Value::Absent || matches!(v, Value::Tag(_)) {
+                    continue;
+                }
+                let (want, got) = match (rm::rt_open(&expected, &dm, v), rm::st_member(&t, &ctx, v)) {
+                    (Ok(x), Ok(y)) => (x, y),
+                    _ => break,
+                };
+                rep.judged(1);
+                if want != got {
+                    rep.violation(
+                        &format!("indexed-access-into-a-list-means-something-else|{}|on-{}", if want { "loses-member" } else { "gains-member" }, tag_of(v)),
+                        "meaning-preserved",
+                        format!("indexed of\n{}\nexpected (by position): {}\ncomputed: {:?}\nvalue {}: expected {}, computed type says {}", case_show(&c), tgen::show(&expected), t, v.show(), want, got),
+                        replay.clone(),
+                    );
+                    break;
+                }
             }
         }
     }
